@@ -94,5 +94,7 @@ RESPELL_FAMILIES = [
     ('http', ['a.test'], 80, ['/d/', '/d/x/..', '/d/.', '/d/x/../', '/d/./', '/d/x/y/../..',
                               '/d/x/./..'], '?q'),
     ('http', ['a.test'], 80, ['/', '/..', '/.', '/x/..', '/../.'], ''),
+    ('http', ['a.test'], 80, ['/d/', '/d/x/%2e%2e/', '/d/%2E/', '/d/x/.%2e/', '/d/x/%2E./', '/d/x/%2e%2E',
+                              '/d/%2e'], '?q'),
     ('http', ['a.test'], 80, ['/%aF%Af%fa', '/%AF%AF%FA', '/%af%af%fa'], '?x=%aB'),
 ]
